@@ -108,6 +108,8 @@ func (svg *SVGImage) Draw(dst backend.Canvas, width, height Fl, textContext text
 	dims.setupDiagonal()
 
 	svg.textContext = textContext
+	// the text cursor is a state of one drawing: the same image may be drawn several times
+	svg.cursorPosition, svg.cursorDPosition = point{}, point{}
 	svg.drawNode(dst, svg.root, dims, true)
 }
 
